@@ -15,6 +15,8 @@ gentie_step(check, ctx) — a pre-step for vlib.core.Check:
 
   ctx["info"]["gentie_kernels"]      Go functions translated AND tied by a theorem that checks
   ctx["info"]["gentie_unsupported"]  {goFunc: "unsupported: <construct> at file:line"} (kernels of the table outside the subset)
+  ctx["info"]["gentie_not_translated_parts"]  {goFunc: [...]} abstract helpers / branches of tied kernels (NOT covered by the tie)
+  ctx["info"]["gentie_delegations"]  {goFunc: "branch … runs <callee>"}
   ctx["info"]["gentie"]              timing, whether the generated file changed, axioms of the gen_eq_* theorems
 
 Steps 1–2 run under the lake lock, because OW/Gen/Kernels.lean is shared between concurrent runs (which may look at
@@ -44,6 +46,7 @@ TIES = {
     "gen_eq_DepthToRate": (["depthToRate"], "C16"),
     "gen_eq_FixedPartition": (["fixedPartition"], "C16"),
     "gen_eq_VariablePartition": (["variablePartition"], "C16"),
+    "gen_eq_RatingPartition": (["ratingPartition"], "C16"),
     "gen_eq_Sum": (["sum"], "C16"),
     "gen_eq_Gate": (["gate"], "C16"),
     "gen_eq_ComputeProportion": (["computeProportion"], "C16"),
@@ -53,19 +56,54 @@ TIES = {
     "gen_eq_PassLoadIfFlow": (["passLoadIfFlow"], "C16"),
     "gen_eq_DissolvedNutrients": (["dissolvedNutrients"], "C16"),
     "gen_eq_ParticulateNutrients": (["particulateNutrients"], "C16"),
+    "gen_eq_BankErosion": (["bankErosion"], "C16"),
+    "gen_eq_UsleFine": (["usleFine"], "C16"),
+    "gen_eq_SednetGully": (["sednetGullyOrig"], "C16"),
+    "gen_eq_SednetGullyAlt": (["sednetGullyDerm"], "C16"),
+    "gen_eq_BaseflowFilter": (["baseflowFilter"], "C16"),
+    "gen_eq_Simhyd": (["simhyd"], "C10"),
+    "gen_eq_Surm": (["surm"], "C10"),
+    "gen_eq_StorageParticulateTrapping": (["storageParticulateTrapping"], "C12"),
+    "gen_eq_StorageDissolvedDecay": (["storageDissolvedDecay"], "C12"),
+    "gen_eq_InstreamDissolvedNutrient": (["instreamDissolvedNutrient"], "C12"),
+    "gen_eq_InstreamFineSediment": (["instreamFineSediment"], "C12"),
+    "gen_eq_ClimateVariables": (["climateVariables"], "C20"),
 }
+# auxiliary theorems of GenTie.lean (helper functions of a kernel) are named <theorem>_<helper>: attributed to <theorem>
 # theorems of GenTieReal.lean are corollaries: a failure there is attributed to the GenTie theorem they instantiate
 REAL_OF = {"gen_eq_LumpedConstituent_real": "gen_eq_LumpedConstituent",
-           "gen_eq_InstreamCoarseSediment_real": "gen_eq_InstreamCoarseSediment"}
+           "gen_eq_InstreamCoarseSediment_real": "gen_eq_InstreamCoarseSediment",
+           "gen_eq_StorageDissolvedDecay_real": "gen_eq_StorageDissolvedDecay",
+           "gen_eq_InstreamDissolvedNutrient_real": "gen_eq_InstreamDissolvedNutrient",
+           "gen_eq_InstreamFineSediment_real": "gen_eq_InstreamFineSediment",
+           "gen_eq_ClimateVariables_real": "gen_eq_ClimateVariables"}
+
+
+def _owner(name):
+    """the TIES theorem a theorem of GenTie.lean belongs to (itself, or the longest TIES name it extends with `_…`)"""
+    if name in TIES:
+        return name
+    best = None
+    for t in TIES:
+        if name and name.startswith(t + "_") and (best is None or len(t) > len(best)):
+            best = t
+    return best
 
 
 def _theorem_lines(path):
-    """[(first line, name)] of the theorems of a Lean file, in order."""
+    """[(first line, name)] of the theorems of a Lean file, in order; the first line is that of the doc comment when there
+    is one (Lean reports some errors of a declaration at its very beginning)."""
     out = []
+    doc = None
     for i, line in enumerate(open(path, encoding="utf-8").read().splitlines(), 1):
+        if line.startswith("/--"):
+            doc = i
+            continue
         m = re.match(r"\s*theorem\s+([^\s:({\[]+)", line)
         if m:
-            out.append((i, m.group(1)))
+            out.append((doc or i, m.group(1)))
+        if re.match(r"(theorem|def|abbrev|instance|macro|macro_rules|syntax|namespace|end|open|section|#\w+)\b", line):
+            doc = None
     return out
 
 
@@ -74,7 +112,7 @@ def _namespace_lines(path):
     if os.path.exists(path):
         for i, line in enumerate(open(path, encoding="utf-8").read().splitlines(), 1):
             m = re.match(r"namespace\s+(\S+)", line)
-            if m:
+            if m and m.group(1) != "delegate":   # the callee of a delegation, nested in the kernel's namespace
                 out.append((i, m.group(1).strip("«»")))
     return out
 
@@ -126,7 +164,7 @@ def run_gentie(ctx=None):
             path, line, msg = m.group(1), int(m.group(2)), m.group(4).strip()
             thms = []
             if path.endswith("OW/Props/GenTie.lean"):
-                t = _enclosing(tie_thms, line)
+                t = _owner(_enclosing(tie_thms, line))
                 thms = [t] if t else []
             elif path.endswith("OW/Props/GenTieReal.lean"):
                 t = REAL_OF.get(_enclosing(real_thms, line))
@@ -182,6 +220,18 @@ def gentie_step(check, ctx, only_property=None):
                          if status.get(f, {}).get("status") == "ok"})
     info["gentie_kernels"] = tied_funcs
     info["gentie_unsupported"] = unsupported
+    # parts of a tied kernel that are NOT translated (only named in the generated file): said so in the evidence
+    partial = {}
+    for f, k in status.items():
+        notes = ["abstract helper " + a for a in k.get("abstract_helpers", [])] + \
+                ["branch not translated: " + a for a in k.get("abstract_branches", [])]
+        if notes and k["status"] == "ok":
+            partial[f] = notes
+    if partial:
+        info["gentie_not_translated_parts"] = partial
+    deleg = {f: k["delegation"] for f, k in status.items() if k.get("delegation")}
+    if deleg:
+        info["gentie_delegations"] = deleg
     untied = sorted(f for f, k in status.items() if k["status"] == "ok" and not any(f in fs for fs, _ in TIES.values()))
     if untied:
         info["gentie_translated_without_theorem"] = untied
